@@ -9,6 +9,8 @@ import (
 	"time"
 
 	"github.com/markkurossi/mpc/circuit"
+	"github.com/markkurossi/mpc/compiler"
+	"github.com/markkurossi/mpc/compiler/utils"
 	"github.com/markkurossi/mpc/env"
 	"github.com/markkurossi/mpc/ot"
 	"github.com/markkurossi/mpc/p2p"
@@ -166,6 +168,23 @@ type c02Replay struct {
 	EErr    string `json:"evaluator_error"`
 }
 
+// compiled two-party MPCL programs (multi-output, 1-bit and odd widths, unequal input widths)
+var c02Programs = []string{
+	"package main\nfunc main(a, b uint8) uint8 {\n\treturn a + b\n}\n",
+	"package main\nfunc main(a uint5, b uint3) (uint6, bool) {\n\treturn uint6(a) + uint6(b), uint5(b) < a\n}\n",
+	"package main\nfunc main(a, b int7) int7 {\n\tif a > b {\n\t\treturn a - b\n\t}\n\treturn b - a\n}\n",
+	"package main\nfunc main(a bool, b uint1) (bool, uint1, bool) {\n\treturn a && b == 1, b, !a\n}\n",
+	"package main\nfunc main(a, b uint6) (uint6, uint6, uint6) {\n\treturn a * b, a ^ b, a & b\n}\n",
+	"package main\nfunc main(a uint9, b uint4) uint9 {\n\treturn a >> 2 | uint9(b)\n}\n",
+}
+
+func compileC02(idx int) (*circuit.Circuit, error) {
+	params := utils.NewParams()
+	defer params.Close()
+	circ, _, err := compiler.New(params).Compile(c02Programs[idx%len(c02Programs)], nil)
+	return circ, err
+}
+
 func runC02(c *Ctx) error {
 	n := c.N(64, 2000)
 	frags := []int{0, 1, 3, 17, 64, 1000}
@@ -176,6 +195,16 @@ func runC02(c *Ctx) error {
 			opts.MinGates, opts.MaxGates = 80, 160
 		}
 		circ := GenCircuit(r, opts)
+		if i%8 == 5 {
+			cc, err := compileC02(i / 8)
+			if err != nil {
+				return fmt.Errorf("compile: %v", err)
+			}
+			circ = cc
+			c.Hist("circuit:compiled-mpcl")
+		} else {
+			c.Hist("circuit:generated")
+		}
 		n0 := int(circ.Inputs[0].Type.Bits)
 		n1 := int(circ.Inputs[1].Type.Bits)
 		kind := otKinds[i%len(otKinds)]
